@@ -3,6 +3,8 @@ initial value; conflicting declarations raise."""
 import copy
 import itertools
 
+import numpy as np
+
 from vivarium.core.composer import Composite
 from vivarium.core.engine import Engine
 from vivarium.core.store import generate_state
@@ -346,6 +348,18 @@ def conflict_cases(acc):
         ('serializer-equal', {'_serializer': 'vmc_ser'},
          {'_serializer': 'vmc_ser'}, False),
         ('updater-only-second', {}, {'_updater': 'set'}, False),
+        # dictionary- and array-valued declarations are compared by value
+        ('value-dict', {'_value': {'a': {'b': 1}}, '_updater': 'set'},
+         {'_value': {'a': {'b': 2}}, '_updater': 'set'}, True),
+        ('value-dict-keys', {'_value': {'a': {'b': 1}}, '_updater': 'set'},
+         {'_value': {'a': {'b': 1, 'c': 1}}, '_updater': 'set'}, True),
+        ('value-dict-equal', {'_value': {'a': {'b': 1}}, '_updater': 'set'},
+         {'_value': {'a': {'b': 1}}, '_updater': 'set'}, False),
+        ('value-array', {'_value': np.array([1, 2]), '_updater': 'set'},
+         {'_value': np.array([1, 3]), '_updater': 'set'}, True),
+        ('value-array-equal', {'_value': np.array([1, 2]),
+                               '_updater': 'set'},
+         {'_value': np.array([1, 2]), '_updater': 'set'}, False),
     ]
     for (label, a, b, must_raise) in confl:
         for topo_b in (('s',), {'_path': ('t',), 'v': ('..', 's', 'v')}):
